@@ -507,27 +507,17 @@ int vnadata_convert(const vnadata_t *vdp_in, vnadata_t *vdp_out,
      * Initially set the type to VPT_UNDEF.
      */
     if (vdp_out != vdp_in) {
-	int new_rows    = vdp_in->vd_rows;
-	int new_columns = vdp_in->vd_columns;
 	int rc;
 
 	/*
-	 * If converting from matrix to vector, make it a row vector
-	 * of length number of ports.
+	 * Set up the output matrix with the dimensions of the input so
+	 * that both have the same number of ports while the impedances
+	 * are copied.  If converting from matrix to vector, the output
+	 * is changed to a row vector after the conversion, below.
+	 * Transfer everything over except for error_fn and error_arg.
 	 */
-	if ((group & CONV_MASK) == CONV_xtoI) {
-	    if (new_rows < new_columns) {
-		new_columns = new_rows;
-	    }
-	    new_rows = 1;
-	}
-
-	/*
-	 * Set up the output matrix.  Transfer everything over except
-	 * for error_fn and error_arg.
-	 */
-	rc = vnadata_init(vdp_out, VPT_UNDEF, new_rows, new_columns,
-		vdp_in->vd_frequencies);
+	rc = vnadata_init(vdp_out, VPT_UNDEF, vdp_in->vd_rows,
+		vdp_in->vd_columns, vdp_in->vd_frequencies);
 	if (rc == -1) {
 	    return -1;
 	}
@@ -665,10 +655,10 @@ int vnadata_convert(const vnadata_t *vdp_in, vnadata_t *vdp_out,
     vdp_out->vd_type = newtype;
 
     /*
-     * For the case of an in-place conversion of a square matrix to Zin,
-     * change the dimensions to a row vector.
+     * For the case of a conversion of a square matrix to Zin, change
+     * the dimensions to a row vector.
      */
-    if (vdp_in == vdp_out && (group & CONV_MASK) == CONV_xtoI) {
+    if ((group & CONV_MASK) == CONV_xtoI) {
 	int ports = vdp_out->vd_rows < vdp_out->vd_columns ?
 	    vdp_out->vd_rows : vdp_out->vd_columns;
 
